@@ -696,6 +696,14 @@ fn mode_builtins(_seed: u64, limit: usize) -> Vec<serde_json::Value> {
                 }
             }
         }
+        // equalsString: equality of the two texts (same length / same first character / case variants / non-ASCII included)
+        let strs = ["", "a", "b", "ab", "ac", "Ab", "abc", "abd", "\u{e9}", "e\u{301}", "\0a", "\0b"];
+        for x in &strs {
+            for y in &strs {
+                n += 1;
+                expect_builtin(&mut fails, F::EqualsString, sem, &[Value::string(x.to_string()), Value::string(y.to_string())], format!("{x:?} {y:?}"), Some(Value::bool(x == y)));
+            }
+        }
         // ill-typed arguments: failure, never a panic
         let ill = [Value::bool(true), Value::byte_string(vec![1]), Value::integer(1.into()), Value::Con(Rc::new(Constant::Unit))];
         for f in [F::AddInteger, F::DivideInteger, F::IndexByteString, F::ConsByteString, F::EqualsByteString, F::LessThanInteger, F::AppendByteString, F::SliceByteString, F::IfThenElse, F::LengthOfByteString, F::HeadList, F::TailList, F::NullList] {
